@@ -85,7 +85,7 @@ mod c01 {
     macro_rules! fixed_case {
         ($name:ident, $t:ty, $mk:expr, $img:expr, $w:expr, [$($acc:ident),*], $same:expr) => {
             #[kani::proof]
-            #[kani::unwind(24)]
+            #[kani::unwind(13)]
             #[kani::stub(std::rt::thread_cleanup, noop)]
             #[kani::stub(alloc::fmt::format, empty_string)]
             fn $name() {
